@@ -24,7 +24,7 @@ MANIFEST = dict(
          "sub-accounts never enter, --permissive skips the comparison only. The block is re-extracted from textual.cc/account.cc/"
          "balance.cc/xact.cc on every run (pinned text + two interpreted statements the model follows) and the model is run against "
          "the rebuilt binary on generated histories (1-40 transactions, 1-5 accounts incl. parent/child names, 1-3 commodities, "
-         "true/false assertions, assignments, dates out of file order, real/(virtual)/[balanced], lots via costs); an independent "
+         "true/false assertions, assignments, dates out of file order, real/(virtual)/[balanced], lots via costs and explicit {price} [date] (tag) annotations); an independent "
          "Fraction oracle on ledger's own exit status, error lines and assigned amounts supplies the failing input.",
     note="Full statements C09.AssertIffSpec / C09.AssignMakesTrue are refuted on the current tree (theorems C09.*_refuted_*): "
          "(1) an assertion/assignment on a virtual posting ignores earlier ordinary postings of the same transaction to the same "
@@ -47,6 +47,53 @@ FP_COMM = "C09:own-commodity-differs-from-asserted"
 
 
 # ---------------------------------------------------------------------------
+# AST extension: post["lot"] = {"price": amount|None, "date": day|None, "tag": str|None} — an explicit lot
+# annotation `{PRICE} [DATE] (TAG)` written after the amount.  The annotated commodity is a different
+# commodity for balancing, but the `= AMOUNT` block strips annotations: a lot counts in its BASE commodity
+# (the Lean model and the oracle both read only amount.comm, i.e. the base commodity).
+
+
+def lot_text(lot, comms):
+    s = ""
+    if lot.get("price") is not None:
+        s += " {" + jgen.render_amount(lot["price"], comms) + "}"
+    if lot.get("date") is not None:
+        s += " [" + jgen.date_text(lot["date"]) + "]"
+    if lot.get("tag"):
+        s += " (" + lot["tag"] + ")"
+    return s
+
+
+def render_post(p, comms):
+    if not p.get("lot") or p["amount"] is None:
+        return jgen.render_post(p, comms)
+    q = dict(p, cost=None, note="")
+    q["assert"] = None
+    s = jgen.render_post(q, comms) + lot_text(p["lot"], comms)
+    if p["cost"]:
+        s += (" @ " if p["cost"]["per_unit"] else " @@ ") + jgen.render_amount(p["cost"], comms)
+    if p.get("assert") is not None:
+        s += "  = " + jgen.render_amount(p["assert"], comms)
+    if p.get("note"):
+        s += "  ; " + p["note"]
+    return s
+
+
+def render(journal, comms):
+    """jgen.render with lot annotations; fills line numbers into the AST."""
+    out = []
+    for x in journal["xacts"]:
+        lines = [jgen.render_xact(dict(x, posts=[]), comms)[0]] + [render_post(p, comms) for p in x["posts"]]
+        x["line"] = len(out) + 1
+        for i, p in enumerate(x["posts"]):
+            p["line"] = len(out) + 2 + i
+        out += lines
+        x["end_line"] = len(out)
+        out.append("")
+    return "\n".join(out) + "\n"
+
+
+# ---------------------------------------------------------------------------
 # independent oracle: the property restated over the AST with Fractions
 
 
@@ -63,7 +110,7 @@ def cost_total(p):
     return (cq if q >= 0 else -cq), c["comm"]
 
 
-def spec_walk(j, permissive):
+def spec_walk(j, permissive, ignore_lots=False):
     """Per transaction: ('accept', {line: (q, comm)} assigned amounts) or
     ('reject', line, kind).  Running balances are kept per (exact account name,
     commodity): `real` counts ordinary postings, `both` ordinary + virtual; every
@@ -140,6 +187,8 @@ def spec_walk(j, permissive):
                     q, c = cost_total(dict(p, amount={"q": "%d/%d" % (q2.numerator, q2.denominator), "comm": c2}))
                 else:
                     q, c = q2, c2
+                # an annotated commodity is a commodity of its own while the transaction is balanced
+                c = (c, json.dumps(p["lot"], sort_keys=True) if p.get("lot") and not ignore_lots and not p.get("cost") else "")
                 if val is None:
                     val = ("amt", c, q)
                 elif val[0] == "amt":
@@ -167,7 +216,7 @@ def spec_walk(j, permissive):
                     else:
                         i = [k for k, t in enumerate(pend) if t[2] is None][0]
                         a2, v2 = pend[i][0], pend[i][1]
-                        pend[i:i + 1] = [(a2, v2, c, -q) for c, q in sorted(entries.items())]
+                        pend[i:i + 1] = [(a2, v2, c[0], -q) for c, q in sorted(entries.items())]
                 elif nz:
                     if val[0] == "bal" and len(entries) == 2 and len(nz) == 2 and not any(p.get("cost") for p in x["posts"]):
                         a, b = nz.values()          # price implied by the two sums: balances iff they have opposite signs
@@ -322,7 +371,7 @@ def judge(j, obs, permissive, comms=None):
                 # ledger prints no register when any transaction failed, so an assigned amount of this journal cannot be
                 # read off; a wrong one would silently shift every later balance.  Re-run the accepted prefix.
                 pre = {"xacts": [copy.deepcopy(y) for y, w in zip(j["xacts"][:xi], spec[:xi]) if w[0] == "accept"] + [copy.deepcopy(x)]}
-                po = observe(jgen.render(pre, comms), permissive)
+                po = observe(render(pre, comms), permissive)
                 px = pre["xacts"][-1]
                 sp = spec_walk(pre, permissive)[-1]
                 if po["errors"]:
@@ -366,7 +415,7 @@ def shrink(j, comms, permissive, fp):
             cand = {"xacts": [copy.deepcopy(x) for i, x in enumerate(cur["xacts"]) if i != k]}
             if not cand["xacts"]:
                 continue
-            text = jgen.render(cand, comms)
+            text = render(cand, comms)
             r = judge(cand, observe(text, permissive), permissive, comms)
             if r not in (None, "undefined") and r[0] == fp:
                 cur = cand
@@ -375,10 +424,25 @@ def shrink(j, comms, permissive, fp):
     return cur
 
 
+def lot_sensitive(j, permissive):
+    """Do explicit lot annotations change which transactions balance (judged by the oracle with and without them)?"""
+    if not any(p.get("lot") for x in j["xacts"] for p in x["posts"]):
+        return False
+    try:
+        a = spec_walk(j, permissive)
+    except Undefined:
+        a = "undefined"
+    try:
+        b = spec_walk(j, permissive, ignore_lots=True)
+    except Undefined:
+        b = "undefined"
+    return a != b
+
+
 def shrink_mismatch(j, comms, permissive):
     """Greedy removal of transactions, then of postings, while model and binary still disagree."""
     def differs(cand):
-        text = jgen.render(cand, comms)
+        text = render(cand, comms)
         o = observe(text, permissive)
         m = vflib.driver_run(["assert.run\t%d\t%s\t%s" % (1 if permissive else 0, env_of(comms), json.dumps(cand))])[0]
         return canon_obs(o) != canon_model(m)
@@ -414,7 +478,7 @@ def shrink_mismatch(j, comms, permissive):
 def report(ctx, j, comms, permissive, res):
     fp, what, xi = res
     small = shrink(j, comms, permissive, fp)
-    text = jgen.render(small, comms)
+    text = render(small, comms)
     obs = observe(text, permissive)
     r2 = judge(small, obs, permissive, comms)
     if r2 not in (None, "undefined"):
@@ -437,6 +501,7 @@ class Hist:
         self.real, self.both = {}, {}
         self.divergent = divergent        # may emit the shapes excluded by the guards of the _partial theorems
         self.p_assert, self.p_cost, self.p_elide, self.small = p_assert, p_cost, p_elide, small
+        self.p_lot = 0.0
         self.day0 = jgen.day_of(2019, 1, 1)
         self.feat = {}
 
@@ -451,6 +516,20 @@ class Hist:
         q = Fraction(n, 10 ** dec)
         return (q if r.random() < 0.6 else -q), dec
 
+    def make_lot(self, c):
+        r = self.r
+        others = [k for k in self.comms if k.name != c.name] or [Commodity("USD", 2)]
+        pc = r.choice(others)
+        lot = {"price": None, "date": None, "tag": None}
+        shape = r.choice(["price", "date", "tag", "price+date", "all"])
+        if "price" in shape or shape == "all":
+            lot["price"] = amt(Fraction(r.randint(1, 900 * 10 ** pc.dec), 10 ** pc.dec), pc)
+        if "date" in shape or shape == "all":
+            lot["date"] = self.day0 + r.randint(0, 400)
+        if shape in ("tag", "all"):
+            lot["tag"] = "lot %d" % r.randint(1, 9)
+        return lot
+
     def running(self, pend, acct, v, c):
         t = (self.both if v else self.real).get((acct, c), Fraction(0))
         for a2, v2, c2, q2 in pend:
@@ -464,6 +543,7 @@ class Hist:
         posts, pend = [], []
         falsified = False
         has_cost = False
+        has_lot = False
         for i in range(n):
             acct = r.choice(self.accounts)
             kind = r.choices(["real", "virtual", "bvirtual"], [0.62, 0.2, 0.18])[0]
@@ -557,7 +637,13 @@ class Hist:
             if q is None:
                 posts.append(p)
                 break
-            if p["amount"] is not None and kind != "virtual" and r.random() < self.p_cost and q.denominator == 1 and q != 0 and len(self.comms) > 1:
+            if p["amount"] is not None and c.name and q != 0 and r.random() < self.p_lot:
+                p["lot"] = self.make_lot(c)
+                has_lot = True
+                self.f("lot")
+                if any(a2 == acct and v2 == v for a2, v2, c2, q2 in pend) or p["assert"] is not None:
+                    self.f("lot:same-account-same-xact")
+            if p["amount"] is not None and not p.get("lot") and kind != "virtual" and r.random() < self.p_cost and q.denominator == 1 and q != 0 and len(self.comms) > 1:
                 cc = r.choice([k for k in self.comms if k.name != c.name])
                 per_unit = r.random() < 0.6
                 price = Fraction(r.randint(1, 300 * 10 ** cc.dec), 10 ** cc.dec)
@@ -570,6 +656,7 @@ class Hist:
                 break
         # balance it (spec-level amounts); a falsified transaction is rejected before balancing matters, balance it anyway
         res = {}
+        lots = {}
         for p, (a2, v2, c2, q2) in zip(posts, pend):
             if p["kind"] == "virtual":
                 continue
@@ -577,13 +664,28 @@ class Hist:
                 tq, tc = cost_total(dict(p, amount={"q": "%d/%d" % (q2.numerator, q2.denominator), "comm": c2}))
             else:
                 tq, tc = q2, c2
+            if p.get("lot"):
+                # an annotated commodity balances only against itself: give it its own balancing posting
+                lk = json.dumps(p["lot"], sort_keys=True)
+                lots[(tc, lk)] = lots.get((tc, lk), Fraction(0)) + tq
+                continue
             res[tc] = res.get(tc, Fraction(0)) + tq
         nz = {c: q for c, q in res.items() if q != 0}
         cmap = {c.name: c for c in self.comms}
         cmap[""] = Commodity("", 0)
         bal_acct = r.choice(self.accounts)
         tail = []
-        if nz and not has_cost and r.random() < self.p_elide and not any(p["amount"] is None and p["assert"] is None for p in posts):
+        for (cn, lk), t in sorted(lots.items()):
+            if t != 0:
+                c = cmap[cn]
+                dec = c.dec
+                while (t * 10 ** dec).denominator != 1:
+                    dec += 1
+                acct = r.choice(self.accounts)
+                tail.append({"account": acct, "kind": "real", "state": 0, "amount": amt(-t, c, dec), "cost": None, "assert": None,
+                             "note": "", "lot": json.loads(lk)})
+                pend.append((acct, False, cn, -t))
+        if nz and not has_cost and not has_lot and r.random() < self.p_elide and not any(p["amount"] is None and p["assert"] is None for p in posts):
             tail.append({"account": bal_acct, "kind": "real", "state": 0, "amount": None, "cost": None, "assert": None, "note": ""})
             for cn, t in sorted(nz.items()):
                 pend.append((bal_acct, False, cn, -t))
@@ -693,6 +795,49 @@ def small_cases():
     return out
 
 
+def lot_cases():
+    """Boundary stream for lot annotations: two postings of the same kind to the same account, the earlier one carrying an
+    explicit `{price}` / `[date]` / `(tag)` annotation (each alone and all three), the later one `= AMOUNT` in the BASE
+    commodity — true, false by exactly the lot's quantity (what one gets when the lot drops out of the running balance),
+    and as an assignment — with the annotated posting in the SAME transaction and, as a control, in an earlier one; with
+    and without a previous balance on the account; plus a virtual assertion after an annotated ordinary posting."""
+    S = Commodity("AAPL", 0)
+    D = Commodity("$", 2, prefix=True, space=False)
+    comms = [S, D]
+    d0 = jgen.day_of(2020, 1, 1)
+    lotsv = [{"price": amt(5, D), "date": None, "tag": None}, {"price": None, "date": d0 - 40, "tag": None},
+             {"price": None, "date": None, "tag": "first lot"}, {"price": amt(Fraction(13, 2), D), "date": d0 - 3, "tag": "x1"}]
+    out = []
+
+    def P(acct, kind, q=None, asr=None, lot=None):
+        p = {"account": acct, "kind": kind, "state": 0, "amount": None if q is None else amt(q, S), "cost": None,
+             "assert": None if asr is None else amt(asr, S), "note": ""}
+        if lot:
+            p["lot"] = dict(lot)
+        return p
+
+    def X(day, payee, posts):
+        return {"date": day, "aux": None, "state": 0, "code": "", "payee": payee, "note": "", "posts": posts}
+    kinds = [("real", "real"), ("virtual", "virtual"), ("bvirtual", "bvirtual"), ("real", "virtual"), ("real", "bvirtual")]
+    for (k1, k2), lot, same, mode, prior in itertools.product(kinds, lotsv, [True, False], ["true", "false-lot", "assign"], [0, 7]):
+        xs = []
+        if prior:
+            xs.append(X(d0 + 9, "prior", [P("A", "real", prior), P("Eq", "real", -prior)]))
+        # what the asserting posting (kind k2) sees of the earlier ones: ordinary postings always, virtual ones when it is virtual
+        seen = prior + (10 if (k1 == "real" or k2 != "real") else 0)
+        lotp = [P("A", k1, 10, lot=lot)] + ([P("Eq", "real", -10, lot=lot)] if k1 != "virtual" else [])
+        target = {"true": seen + 5, "false-lot": seen + 5 - 10, "assign": seen + 5}[mode]
+        own = None if mode == "assign" else 5
+        ap = [P("A", k2, own, asr=target)] + ([P("Eq", "real", -5)] if k2 != "virtual" else [])
+        if same:
+            xs.append(X(d0, "lot and assertion", [lotp[0], ap[0]] + lotp[1:] + ap[1:]))
+        else:
+            xs.append(X(d0 + 5, "lot", lotp))
+            xs.append(X(d0, "assertion", ap))
+        out.append(({"xacts": xs}, comms))
+    return out
+
+
 def malformed(rng, comms, accounts):
     """AST-expressible ill-formed transactions the model also decides."""
     h = Hist(rng, comms, accounts, small=True)
@@ -728,7 +873,7 @@ def run_cases(ctx, cases):
     """cases: list of (journal AST, comms, tag). Renders, runs ledger (plain and --permissive), the model, the oracle."""
     texts = []
     for j, comms, tag in cases:
-        texts.append(jgen.render(j, comms))
+        texts.append(render(j, comms))
     jobs = [(k, perm) for k in range(len(cases)) for perm in (False, True)]
     obs = vflib.pmap(lambda kp: observe(texts[kp[0]], kp[1]), jobs)
     lines = []
@@ -750,10 +895,14 @@ def run_cases(ctx, cases):
         lo, mo = canon_obs(o), canon_model(m)
         for l, kd in o["errors"]:
             ctx.feature("ledger-error:" + kd)
-        if lo != mo:
+        if lo != mo and lot_sensitive(j, perm):
+            # the model reads base commodities only; whether THIS journal's transactions balance depends on the
+            # annotated commodities (implied price / per-lot remainder): outside the model, the oracle still judges
+            ctx.feature("model-skip:balancing-depends-on-lots")
+        elif lo != mo:
             if len(ctx.mism) < 3:
                 sj = shrink_mismatch(j, comms, perm)
-                st = jgen.render(sj, comms)
+                st = render(sj, comms)
                 so = canon_obs(observe(st, perm))
                 sm = canon_model(vflib.driver_run(["assert.run\t%d\t%s\t%s" % (1 if perm else 0, env_of(comms), json.dumps(sj))])[0])
                 ctx.mism.append({"journal": st, "permissive": perm, "model": sm[:600], "ledger": so[:600], "tag": tag})
@@ -811,8 +960,8 @@ def run(tier, seed):
         "tools/jgen.py renders the AST the model receives into the journal text ledger reads"])
     ctx.mism, ctx.oracle_fail, ctx.reported_fp = [], 0, {}
     ctx.rule = ("a case = one generated history (1-40 transactions, 1-5 accounts incl. parent/child names, 1-3 commodities, dates out of "
-                "file order, real/(virtual)/[balanced], costs creating lots, true/false(off by >=1 display unit) assertions, assignments, bare 0) "
-                "run once plainly and once with --permissive; bounded-exhaustive two-transaction shapes first; non-trivial = some assertion/"
+                "file order, real/(virtual)/[balanced], costs and explicit {price}/[date]/(tag) annotations creating lots, true/false(off by >=1 display unit) assertions, assignments, bare 0) "
+                "run once plainly and once with --permissive; bounded-exhaustive two-transaction shapes and lot-annotation shapes first; non-trivial = some assertion/"
                 "assignment sits on an account that already received postings; distinct by journal text and mode")
     ctx.assumptions = ["stripping annotations is the identity on quantity and base commodity",
                        "amounts are written with at most the commodity's display precision, cost totals included (is_zero exact)",
@@ -827,6 +976,9 @@ def run(tier, seed):
     sm = small_cases()
     ctx.extra_cov["exhaustive_small_shapes"] = len(sm)
     cases += [(j, comms, "small") for j, comms in sm]
+    lc = lot_cases()
+    ctx.extra_cov["exhaustive_lot_shapes"] = len(lc)
+    cases += [(j, comms, "lot") for j, comms in lc]
     n_rand = 260 if quick else 20000
     if ctx.ties_broken:
         # a proof obligation / extractor / pinned text no longer checks: search mode, widen every stream
@@ -837,9 +989,12 @@ def run(tier, seed):
         nc = rng.choice([1, 2, 2, 3])
         comms = rng.sample(POOL, nc)
         accounts = rng.sample(rng.choice(ACCT_SETS), rng.randint(1, 5))
-        divergent = rng.random() < 0.06
+        divergent = rng.random() < 0.5     # both shapes are ordinary behaviour since the repairs 30d5da0, ccbf198
         h = Hist(rng, comms, accounts, divergent=divergent, small=rng.random() < 0.5,
                  p_assert=rng.choice([0.3, 0.55, 0.8]), p_cost=rng.choice([0, 0.08, 0.2]))
+        if rng.random() < 0.3:
+            h.p_lot = rng.choice([0.15, 0.4])       # explicit lot annotations {price} [date] (tag)
+            ctx.feature("journals-with-lots")
         n = rng.choice([1, 2, 3, 5, 8, 13, 20, 40]) if rng.random() < 0.7 else rng.randint(1, 40)
         j = h.journal(n)
         for k, v in h.feat.items():
@@ -896,7 +1051,7 @@ def replay(obj):
     if "ast" in r:
         comms = [Commodity(*c) for c in r.get("comms", [])]
         j = r["ast"]
-        jgen.render(j, comms)      # line numbers
+        render(j, comms)      # line numbers
         res = judge(j, o, perm, comms)
         print("oracle:", res)
         return 0 if res in (None, "undefined") else 1
